@@ -12,7 +12,10 @@ PROOF_FILES = ["Comp/SpillSem.v", "Proofs/SpillProof.v", "Proofs/PrologueProof.v
 # composition (Props/C02_compose.v): linked code with callsub/retsub and a call stack computes the call-aware source semantics;
 # CallX/* re-checks the C01 chain against a call oracle (13 of its files are generated from Proofs/ by harness/tools/callx_gen.py)
 COMPOSE_FILES = ["Comp/LinkedSem.v"] + ['CallX/Denote.v', 'CallX/EndToEnd.v', 'CallX/EndToEndGlue.v', 'CallX/FlattenCorrect.v', 'CallX/GraphSem.v', 'CallX/LinearSem.v', 'CallX/LowerCorrect.v', 'CallX/LowerLemmas.v', 'CallX/NormalizeCorrect.v', 'CallX/NormalizeLowered.v', 'CallX/NormalizeSem.v', 'CallX/SimCheck.v', 'CallX/SlotCompose.v', 'CallX/SlotComposeCover.v', 'CallX/SlotComposeEnd.v', 'CallX/SlotComposeFinal.v', 'CallX/SortCorrect.v'] + ['Proofs/CallComposeAcyclic.v', 'Proofs/CallComposeBind.v', 'Proofs/CallComposeByValue.v', 'Proofs/CallComposeByValueExample.v', 'Proofs/CallComposeByValueFinal.v', 'Proofs/CallComposeExamples.v', 'Proofs/CallComposeFinal.v', 'Proofs/CallComposeFrame.v', 'Proofs/CallComposeLayout.v', 'Proofs/CallComposeLink.v', 'Proofs/CallComposeMachine.v', 'Proofs/CallComposeMain.v', 'Proofs/CallComposeProgram.v', 'Proofs/CallComposeProtect.v', 'Proofs/CallComposeSpill.v', 'Proofs/CallComposeSpillPass.v']
-EXTRA_PROPS = ["Props/C02_compose.v"]
+# machine level (Props/C02_machine.v): Machine.step simulates the linked semantics (call stack included), the printed text of a program with
+# subroutines parses to the linked program, frame-pointer call protocol on the machine
+MACHINE_FILES = ['Proofs/CallMachineExamples.v', 'Proofs/CallMachineFpSem.v', 'Proofs/CallMachineFrame.v', 'Proofs/CallMachineProgram.v', 'Proofs/CallMachineSim.v', 'Proofs/CallMachineText.v']
+EXTRA_PROPS = ["Props/C02_compose.v", "Props/C02_machine.v"]
 
 
 def I_(n):
@@ -204,7 +207,7 @@ def main(argv):
     if rc != 0:
         ck.violation("translator aborted", {"broken": "harness/translate.py", "log": out[-2000:]}, no_failing_input=True)
         return ck.finish(level="proof", rule="translator failed")
-    ck.run_proofs("Props/C02.v", PROOF_FILES + COMPOSE_FILES, extra_targets=["Extract/Main.vo"], extra_props=EXTRA_PROPS)
+    ck.run_proofs("Props/C02.v", PROOF_FILES + COMPOSE_FILES + MACHINE_FILES, extra_targets=["Extract/Main.vo"], extra_props=EXTRA_PROPS)
     model = Model()
     rng = ck.rng
     mismatches, semfails, stats, outcomes, classes_seen = [], [], {}, {}, {}
@@ -328,7 +331,7 @@ def main(argv):
                      {"kind": "correspondence", "broken": "text equality compileTeal vs Comp.Compile.compile_model (subroutines)", "case": c.describe(),
                       "subs": {k: repr(v["body"]) for k, v in c.builder.subs.items()}}, no_failing_input=True)
     if not ck.proof_ok and not semfails:
-        ck.violation("proof obligation broken: Props/C02.v / Props/C02_compose.v no longer check", {"kind": "proof", "broken": "Props/C02.v, Props/C02_compose.v", "log": ck.proof_log[-1500:]}, no_failing_input=True)
+        ck.violation("proof obligation broken: Props/C02.v / Props/C02_compose.v / Props/C02_machine.v no longer check", {"kind": "proof", "broken": "Props/C02.v, Props/C02_compose.v, Props/C02_machine.v", "log": ck.proof_log[-1500:]}, no_failing_input=True)
     ck.coverage["disagreements_checked"] = len(mismatches) + len(semfails) + sum(classes_seen.values())
     ck.coverage["programs"] = sum(outcomes.values())
     model.close()
